@@ -10,6 +10,32 @@ BASE_NOTE = ("Trusted base: CPython's ast module; the evaluator/normaliser in fs
 
 # id -> (technique, level text, design ref) for the properties whose check is built and armed
 CLAIMS = {
+    "C06": ("units-of-measure typing and affine (symbolic-translation) typing over evaluator normal forms; rounding-site classification over the call-graph closure; covariance kind of the orientation step",
+            "Static necessary-condition analysis (a typing proof in the sense of Kennedy's units-of-measure parametricity for the typed quantities): every coefficient of the "
+            "force-balance system is L^0 and translation invariant, velocities are L*T^-1 with space/time weight 0, the adimensional rhs is L^0*T^0, curvature L^-1, "
+            "total turning L^0, pressure rhs stress*L^0; the only live rounding on the inference closure is the 3-decimal rounding of the dimensionless velocity term; "
+            "the area sign is translation invariant as a cyclic sum. Rotation: only the orientation step is judged (known finding F6); solver conditioning is not decided.", "3/C06"),
+    "C11": ("formula matching of the sampling expression on evaluator terms, who-may-write on cell cycles inside generate_mesh, formula identity of the contraction midpoint, guard of the border condition",
+            "Static necessary-condition analysis: long interfaces become [E[int(len(E)/ne*i)] for i in range(ne)] + [E[-1]] (first index folds to 0, last point unconditional, ne+1 points), "
+            "short interfaces are kept whole, cell cycles only shrink, the two-point border contraction target is exactly (v0+v1)/2 under the stated border condition and option. "
+            "Idempotence and preserved adjacency depend on runtime topology and are not decided.", "3/C11"),
+    "C12": ("guard domination on evaluator events, alignment of the candidate list with its distances, constants of the statement, inverse-composition shape",
+            "Static necessary-condition analysis: every candidate considered is outside the targets already taken (the live values view of the mapping being filled), assignments are "
+            "guarded by 'not yet mapped' with user pairings merged first, pools are interface end points of the respective frames, the nearest of the same candidate list is chosen, "
+            "radius 0.5%..8% / cut-off 10% / box change 10%, backward steps invert the same step's map, incompatible frames store None. 'Maps to the true successor' is geometric and not decided.", "3/C12"),
+    "C14": ("field-table (token, conversion, digits, default) matching on evaluator terms, writer/reader column agreement, ARITY rule on the syntax tree (evaluation order), sibling rule for signed references",
+            "Static necessary-condition analysis of the parser: which token feeds which column with which conversion and rounding, defaults, length guard before optional tokens, "
+            "tail vertex of each signed edge through abs(), orphan removal, section markers, interface reference = mean of its mesh edges. The continuation-line state machine is not decided.", "3/C14"),
+    "C17": ("formula identity of window / position / statistic / normalisation on evaluator terms, KEY agreement of writer and reader",
+            "Static necessary-condition analysis: (2*layers+1)^2 window, pixel position = vertex*rescale+offset with matching axes in both code paths, mean-of-medians and "
+            "set-sum/polyline-length statistics (hence linear in the image), 'average' divides by the mean of the same dictionary, values keyed and written back by list position.", "3/C17"),
+    "C18": ("formula identity of the 2x2 tensor (same-value off-diagonal, one selection for all sums), guard of the zero branch, KEY injectivity and writer/reader agreement",
+            "Static necessary-condition analysis: the stored tensor equals [[(-Sum pA+Txx)/Sum A, Txy/Sum A],[Txy/Sum A, (-Sum pA+Tyy)/Sum A]] over one selection, which yields symmetry, "
+            "joint linearity and -p*I; zero tensor iff the selected area is 0; grid centres reported = centres used; composite key injective and shared by writer and reader.", "3/C18"),
+    "C19": ("DIV rule (unguarded division by a difference of single coordinates) over the call-graph closure, constants, sibling rules for the sign-encoded ids, shoelace identity",
+            "Static necessary-condition analysis: no path reachable from create_lattice_elements divides by a rounded coordinate difference without a non-zero guard (axis-parallel "
+            "ridges), corner points rounded to 3 decimals with x/y twins, ids start at 1 and reversed use is encoded/decoded by sign consistently, orientation key from the shoelace sign. "
+            "Agreement with scipy's Voronoi diagram is not decided.", "3/C19"),
     "C04": ("row-shape and formula identity on evaluator terms, unit typing of the turning estimate, small array-algebra normal form, alignment of the dropped-column list",
             "Static necessary-condition analysis: Young-Laplace rows have exactly the two +-1 entries in the columns of the interface's own cells with the "
             "orientation branches exact negations, rhs = tension x un-normalised total turning, curvature and trapezoid formulas are normal-form identities "
